@@ -124,6 +124,10 @@ func c18World(kind string) *vWorld {
 		opts.WebUIBackends = []string{"TOTP", "U2F"}
 	}
 	w := vNewWorld(opts)
+	if kind == "oauth2" {
+		// federated login offered next to the password form (no forced redirect)
+		vNewFakeOAuth2("fedalice").attach(w)
+	}
 	w.state.Config.OpenIDConnectIDP.Client = []OpenIDConnectClientConfig{{ClientID: "clientA", ClientSecret: "s", AllowedRedirectDomains: []string{"example.com"}}}
 	c18Worlds[kind] = w
 	return w
@@ -183,6 +187,14 @@ func c18Check(c c18Case) *vResult {
 	html1 := "text/html,application/xhtml+xml"
 	var resp *vResp
 	w := c18World("pw")
+	if c.Shape%2 == 1 {
+		switch c.Route {
+		case "login-fail", "unauth-authorize", "unauth-showtoken", "root-landing", "public-loginform":
+			// the login page of a deployment that also offers federated login
+			w = c18World("oauth2")
+			res.label("world:oauth2")
+		}
+	}
 	switch c.Route {
 	case "login-fail":
 		form := url.Values{"username": {vUserAlice}, "password": {"wrong"}}
@@ -345,7 +357,7 @@ func c03RoleFormFor(identity string) url.Values {
 
 func TestVerifC18Markup(t *testing.T) {
 	vRunRapid(t,
-		"rapid: 26 canary payloads + generated metacharacter mixes x request-controlled field x 13 HTML-producing route situations (failed / successful login, 401 login and 2FA pages for authorize / CLI-token routes, landing page, own / other profile with stored token names, users list, CLI token page, error paths); non-trivial = response is HTML and reflects the canary; distinct = (route, field, payload, embedding / session shape)",
+		"rapid: 26 canary payloads + generated metacharacter mixes x request-controlled field x 13 HTML-producing route situations, the login page also in a deployment offering federated login next to the password form (failed / successful login, 401 login and 2FA pages for authorize / CLI-token routes, landing page, own / other profile with stored token names, users list, CLI token page, error paths); non-trivial = response is HTML and reflects the canary; distinct = (route, field, payload, embedding / session shape)",
 		c18Gen, c18Check)
 }
 
